@@ -442,7 +442,7 @@ func runIdxCase(o *Oracle, c *IdxCase, rep *Report, fl idxFlags) {
 		}
 	}
 
-	if fl.prop == "C03" && c.Cache >= 0 {
+	if (fl.prop == "C03" && c.Cache >= 0) || fl.prop == "C08" {
 		mutationTie(o, path, c, rep)
 	}
 	if fl.prop == "C03" || fl.prop == "C04" {
@@ -686,11 +686,28 @@ func mutationTie(o *Oracle, path string, c *IdxCase, rep *Report) {
 				continue
 			}
 		}
+		if qi%2 == 0 {
+			// additionally edit the first leaf operand in place (a query used as a template)
+			var kids []updog.Expression
+			switch x := live.(type) {
+			case *updog.ExprAnd:
+				kids = x.Exprs
+			case *updog.ExprOr:
+				kids = x.Exprs
+			}
+			for ki, k := range kids {
+				if leaf, ok := k.(*updog.ExprEqual); ok && ki < len(mod.Kids) && mod.Kids[ki].Op == "E" {
+					leaf.Column, leaf.Value = unhx(donor.C), unhx(donor.V)
+					mod.Kids[ki] = donor
+					break
+				}
+			}
+		}
 		got := safeExecute(idx, uq)
 		want := o.Ask("idx q 0  " + mod.Toks())
 		rep.Count("mutated-expression-objects")
 		if got != want {
-			rep.Violate(Violation{Kind: "history", Signature: "C03:stale-answer-after-expression-changed", What: fmt.Sprintf("an expression object was executed, changed in place (now %s) and executed again on a cached index: the answer is not the one for the changed expression", mod.Toks()), Expected: want, Actual: got, Case: c})
+			rep.Violate(Violation{Kind: "history", Signature: c03or08(c) + ":stale-answer-after-expression-changed", What: fmt.Sprintf("an expression object was executed, changed in place (now %s) and executed again on a cached index: the answer is not the one for the changed expression", mod.Toks()), Expected: want, Actual: got, Case: c})
 			return
 		}
 	}
@@ -702,4 +719,11 @@ func cloneEx(e *Ex) *Ex {
 		c.Kids = append(c.Kids, k)
 	}
 	return c
+}
+
+func c03or08(c *IdxCase) string {
+	if c.Other != nil || c.Cache < 0 {
+		return "C08"
+	}
+	return "C03"
 }
